@@ -47,14 +47,30 @@ func try(res string) bool {
 func runWarm(idx int, c *warmCase) {
 	caseNo++
 	res := fmt.Sprintf("c11-w-%d", caseNo)
+	if c.Hist == "flood-then-rule" {
+		// the resource runs unlimited (no rule yet) at a rate far above the later threshold; the rule is loaded in the
+		// following second, so its first synchronisation sees a previous-second rate much larger than the threshold
+		clk.AddMs(100000)
+		clk.SetMs(clk.Ms() - clk.Ms()%1000)
+		flood := int(float64(2*c.Period+3)*c.T*3) + 10
+		for k := 0; k < flood; k++ {
+			try(res)
+			if k%1000 == 999 {
+				clk.AddMs(1)
+			}
+		}
+		clk.SetMs(clk.Ms() - clk.Ms()%1000 + 1000)
+	}
 	if _, err := flow.LoadRulesOfResource(res, []*flow.Rule{{ID: res, Resource: res, TokenCalculateStrategy: flow.WarmUp, ControlBehavior: flow.Reject,
 		Threshold: c.T, WarmUpPeriodSec: c.Period, WarmUpColdFactor: c.Cold}}); err != nil {
 		run.Violation("C11/warmup:load-error", err.Error(), c)
 		return
 	}
 	defer flow.ClearRulesOfResource(res)
-	clk.AddMs(100000)
-	clk.SetMs(clk.Ms() - clk.Ms()%1000) // start on a second boundary
+	if c.Hist != "flood-then-rule" {
+		clk.AddMs(100000)
+		clk.SetMs(clk.Ms() - clk.Ms()%1000) // start on a second boundary
+	}
 	cls := "general"
 	if c.T/c.cold() < 1 {
 		cls = "cold-rate-below-one-token"
@@ -136,6 +152,27 @@ func runWarm(idx int, c *warmCase) {
 				return
 			}
 		}
+	case "flood-then-rule":
+		// a few requests in the second after the flood (the first synchronisation), then idleness long enough for a
+		// cold start, then saturating demand: the first second must again be cold
+		if !phase(1000, saturate, "second after the unlimited flood", false) {
+			return
+		}
+		idle := uint64(2*c.Period+2)*1000 + 1000
+		clk.AddMs(idle)
+		clk.SetMs(clk.Ms() - clk.Ms()%1000)
+		s1 := sec()
+		if !phase(horizon+2000, saturate, "saturating demand after flood and idle", false) {
+			return
+		}
+		if got, lim := perSec[s1], int(math.Ceil(c.T/c.cold()))+1; got > lim {
+			fail("W2:cold-start-too-hot", fmt.Sprintf("the resource ran unlimited far above the threshold before the rule was loaded; first second after %d s of idleness admitted %d tokens, expected at most ceil(T/cold)+1 = %d", idle/1000, got, lim))
+			return
+		}
+		if got := perSec[sec()-1]; float64(got) < math.Floor(c.T)-1 {
+			fail("W3:never-reaches-threshold", fmt.Sprintf("after %d s of saturating demand the last full second admitted %d tokens, threshold %v", horizon/1000+2, got, c.T))
+			return
+		}
 	case "sparse":
 		if !phase(2*horizon+5000, one, "one request per tick", true) {
 			return
@@ -180,6 +217,24 @@ func measure(res string, limit int) int {
 	return n
 }
 
+// measureBig finds the effective threshold of an empty window by bisection on the batch count (a request of batch b
+// is admitted into an empty window iff b <= threshold): thresholds up to 2^32-1 in 32 probes, each in a fresh window.
+func measureBig(res string) int64 {
+	lo, hi := int64(0), int64(1)<<32-1 // invariant: batch lo is admitted (0 trivially), batch hi+1 is not
+	for lo < hi {
+		mid := lo + (hi-lo+1)/2
+		clk.AddMs(3000)
+		e, b := sentinel.Entry(res, sentinel.WithBatchCount(uint32(mid)))
+		if b == nil {
+			e.Exit()
+			lo = mid
+		} else {
+			hi = mid - 1
+		}
+	}
+	return lo
+}
+
 func runMem(idx int, c *memCase) {
 	caseNo++
 	res := fmt.Sprintf("c11-m-%d", caseNo)
@@ -201,7 +256,12 @@ func runMem(idx int, c *memCase) {
 	for _, u := range c.Usages {
 		system_metric.SetSystemMemoryUsage(u)
 		clk.AddMs(5000)
-		got := measure(res, int(c.LowThr)+5)
+		var got int
+		if c.LowThr > 100000 {
+			got = int(measureBig(res))
+		} else {
+			got = measure(res, int(c.LowThr)+5)
+		}
 		switch {
 		case got > int(c.LowThr) || got < int(c.HighThr):
 			fail("outside-envelope", fmt.Sprintf("memory usage %d: effective threshold %d is outside [%d,%d]", u, got, c.HighThr, c.LowThr))
@@ -226,7 +286,7 @@ func main() {
 	sx.Quiet()
 	run = vk.Start("C11", "seq")
 	defer run.Finish()
-	run.Rule("case = warm-up rule (threshold 0.5-1000, period 1-30 s, cold factor default/2-10) x demand history (saturating, saturating-idle-saturating, one request per 10/20 ms tick, bursty) simulated at 10-20 ms resolution for 3*period+10 virtual seconds and more: W1 admitted tokens per aligned 1 s window <= threshold, W2 first second after a cold start <= ceil(T/cold)+1, W3 full rate (>= floor(T)-1 per second) after 3*period+10 s of saturating demand, W4 (T>=1) steady single-token demand admitted at least once per 3*period+10 s; or memory-adaptive rule x monotone sweep of injected memory readings: measured threshold (admissions in an empty frozen window) equals the low/high-memory threshold at/below/above the water marks, stays in the envelope and is non-increasing in usage. distinct = distinct configurations.")
+	run.Rule("case = warm-up rule (threshold 0.5-1000, period 1-30 s, cold factor default/2-10) x demand history (saturating, saturating-idle-saturating, one request per 10/20 ms tick, bursty, unlimited flood before the rule is loaded then idle then saturating) simulated at 10-20 ms resolution for 3*period+10 virtual seconds and more: W1 admitted tokens per aligned 1 s window <= threshold, W2 first second after a cold start <= ceil(T/cold)+1, W3 full rate (>= floor(T)-1 per second) after 3*period+10 s of saturating demand, W4 (T>=1) steady single-token demand admitted at least once per 3*period+10 s; or memory-adaptive rule x monotone sweep of injected memory readings: measured threshold (admissions in an empty frozen window) equals the low/high-memory threshold at/below/above the water marks, stays in the envelope and is non-increasing in usage. distinct = distinct configurations.")
 	run.Assume("thresholds are measured behaviourally through api.Entry (a NaN / infinite threshold shows as a window exceeding the configured threshold)", "W2/W3/W4 tolerances as stated (integer admissions per window)")
 	clk = vclock.New(1900000000000)
 	n := run.N(180, 3000)
@@ -243,6 +303,22 @@ func main() {
 			if rng.Intn(4) == 0 {
 				c.HighMark = c.LowMark + 1
 			}
+			if rng.Intn(3) == 0 {
+				// large figures: thresholds near 2^32 and water marks in the GiB range (as far as the host's memory
+				// size allows): the interpolation must not overflow or lose the envelope
+				c.LowThr = int64(1e9) + rng.Int63n(int64(3e9))
+				c.HighThr = vk.PickI64(rng, 1, 1000, c.LowThr/2, c.LowThr-1)
+				c.LowMark = int64(1<<20) + rng.Int63n(1<<30)
+				top := int64(system_metric.TotalMemorySize)
+				if top > 1<<40 {
+					top = 1 << 40
+				}
+				if top > c.LowMark+2 {
+					c.HighMark = c.LowMark + 1 + rng.Int63n(top-c.LowMark-1)
+				} else {
+					c.HighMark = c.LowMark + 1
+				}
+			}
 			u := int64(0)
 			for k := 0; k < 14; k++ {
 				switch rng.Intn(6) {
@@ -253,7 +329,7 @@ func main() {
 				case 2:
 					u = c.LowMark + (c.HighMark-c.LowMark)/2
 				default:
-					u += int64(rng.Intn(int(c.HighMark-c.LowMark)/3 + 2))
+					u += rng.Int63n((c.HighMark-c.LowMark)/3 + 2)
 				}
 				c.Usages = append(c.Usages, u)
 			}
@@ -274,7 +350,10 @@ func main() {
 			continue
 		}
 		c := &warmCase{T: Ts[rng.Intn(len(Ts))], Period: uint32(vk.PickI(rng, 1, 1, 2, 3, 5, 10, 10, 30)), Cold: vk.PickU32(rng, 0, 0, 2, 3, 5, 10),
-			Hist: vk.PickS(rng, "saturate", "saturate-idle-saturate", "sparse", "bursty")}
+			Hist: vk.PickS(rng, "saturate", "saturate-idle-saturate", "sparse", "bursty", "flood-then-rule")}
+		if c.Hist == "flood-then-rule" && c.T > 100 {
+			c.T = 100
+		}
 		run.Begin(i, c)
 		if i < 3 {
 			run.Sample(c)
